@@ -841,6 +841,12 @@ impl Connection {
             _ => return Err(ConnectionInnerError::IllegalState),
         }
 
+        // A begin on a channel that is already mapped to a session would silently re-route the
+        // channel and cut the running session off
+        if self.session_by_incoming_channel.contains_key(&channel) {
+            return Err(ConnectionInnerError::IllegalState);
+        }
+
         match begin.remote_channel {
             // This corresponds a locally initiated session
             Some(outgoing_channel) => {
